@@ -285,7 +285,9 @@ SCENARIOS = {
     "three-threads-chain": [("load", Chain, 3), ("load", Chain, 3), ("load", Chain, 3)],
     "stub-reuse-tri": [("load", Tri, 2), ("load", Tri, 2)],
 }
-QUICK_FULL2 = ["chain-self-recursive", "plain-model"]      # exhaustive <= 2 preemptions also in the quick tier
+QUICK_FULL2 = ["plain-model"]                                   # exhaustive <= 2 preemptions also in the quick tier
+QUICK_SLICED = ["three-threads-chain", "stub-reuse-tri"]        # <= 1 preemption only sampled in the quick tier
+THOROUGH_SLICED = ["three-threads-chain", "stub-reuse-tri"]     # <= 2 preemptions only sampled in the thorough tier
 
 
 # ---------------------------------------------------------------------------
@@ -434,6 +436,21 @@ def thread_fn(real: Real, retort, direction, tp, depth, loaders: list, facade: b
         run.point("call", lambda: [type_name(tp), depth])
         return ld(data)
     return fn
+
+
+def chooser_from_action_tids(tids: list[int]):
+    """Replay a *model* schedule (one thread id per abstract action) on the real retort: at every scheduling
+    decision run the thread that performs the next action of the model's trace."""
+    def choose(run: S.Run, enabled, cur):
+        i = sum(1 for a in run.actions if a[1] != "create")
+        if i < len(tids) and tids[i] in enabled:
+            return tids[i]
+        return S.default_choice(enabled, cur)
+    return choose
+
+
+# the schedule of `exists_bad_schedule` in AdaptixProofs/Props/C12.lean (scenario chain-self-recursive)
+LEAN_BAD_SCHEDULE = [0] * 14 + [1] * 19 + [0] * 5
 
 
 def execute(real: Real, sc: Scenario, chooser, mode="points", facade=False, sched_kinds=None) -> Outcome:
@@ -649,31 +666,57 @@ def run(ctx: Ctx):
             drv = None
     batch = Batch(ctx, real, drv)
     thorough = ctx.tier == "thorough"
-    t_end = time.time() + ctx.budget(55, 540)
+    t_end = time.time() + ctx.budget(54, 480)
     names = list(SCENARIOS)
-    # 1. every scenario: all schedules with <= 1 preemption
+    # 0a. the schedule-independent hypothesis of `all_schedules_safe` (`typed`) for every requested type
+    if drv is not None:
+        scs = [Scenario(n) for n in names]
+        reps = drv.batch([{"op": "static", "graph": sc.uni.graph_json(), "fuel": sc.uni.fuel(), "tys": sc.tys}
+                          for sc in scs])
+        bad = [(sc.name, r) for sc, rep in zip(scs, reps) for r in rep.get("ok", [{"typed": False}]) if not r.get("typed")]
+        ctx.suite("static-typed", len(scs), len(bad))
+        for name, r in bad:
+            ctx.disagree("static-typed", {"scenario": name}, "request program expected to be well typed", r)
+    # 0b. the witness of `exists_bad_schedule` replayed on the real retort: it must call an unbound stub exactly
+    #     when FuncWrapper compares by location (the oracle then reports it), and agree with the model either way
+    sc = Scenario("chain-self-recursive")
+    oc = execute(real, sc, chooser_from_action_tids(LEAN_BAD_SCHEDULE))
+    note(ctx, sc, oc, "lean-bad-schedule")
+    oracle(ctx, sc, oc, "points", False)
+    batch.add(sc, oc)
+    ctx.extra["lean_bad_schedule_on_real_retort"] = {"results": oc.results, "followed": oc.schedule_tids == LEAN_BAD_SCHEDULE}
+    if oc.schedule_tids != LEAN_BAD_SCHEDULE or (("unbound" in oc.results) != (real.mode == "byLoc")):
+        ctx.disagree("schedule-run", {"scenario": sc.name, "schedule": oc.run.schedule, "mode": real.mode,
+                                      "what": "witness of exists_bad_schedule"},
+                     {"results": oc.results, "tids": oc.schedule_tids}, {"expected_unbound": real.mode == "byLoc"})
+    batch.flush()
+    # 1. all schedules with <= 1 preemption: exhaustive for the two-thread scenarios with short traces, within a
+    #    time slice (randomised order) for the expensive ones (three threads / long traces); thorough: all
     exhaustive = {}
     for name in names:
         sc = Scenario(name)
-        n = explore(ctx, real, batch, sc, 1, t_end)
-        exhaustive[name] = {"max_preemptions": 1, "schedules": n}
+        full = thorough or name not in QUICK_SLICED
+        dl = t_end if full else min(t_end, time.time() + 3)
+        n = explore(ctx, real, batch, sc, 1, dl, None if full else ctx.rng)
+        exhaustive[name] = {"max_preemptions": 1 if time.time() < dl else 0, "schedules_le1": n}
         batch.flush()
-    # 2. <= 2 preemptions: exhaustive for the core scenarios, randomised order within a time slice for the others
-    #    (thorough: <= 2 everywhere, then <= 3 / <= 4 within slices)
-    slice_s = ctx.budget(3, 40)
-    for name in names:
+    # 2. <= 2 preemptions: exhaustive for QUICK_FULL2 (thorough: every scenario not in THOROUGH_SLICED), otherwise
+    #    a time slice in randomised order
+    for name in sorted(names, key=lambda n: n not in QUICK_FULL2):
         sc = Scenario(name)
-        full = thorough or name in QUICK_FULL2
-        dl = t_end if full else min(t_end, time.time() + slice_s)
+        full = (name in QUICK_FULL2) or (thorough and name not in THOROUGH_SLICED)
+        dl = t_end if full else min(t_end, time.time() + ctx.budget(2, 45))
         n = explore(ctx, real, batch, sc, 2, dl, None if full else ctx.rng)
-        if time.time() < dl:
-            exhaustive[name] = {"max_preemptions": 2, "schedules": n}
+        if full and time.time() < dl and exhaustive[name]["max_preemptions"] == 1:
+            exhaustive[name]["max_preemptions"] = 2
+        exhaustive[name]["schedules_le2"] = n
         batch.flush()
     if thorough:
         for k in (3, 4):
             for name in names:
                 sc = Scenario(name)
-                explore(ctx, real, batch, sc, k, min(t_end, time.time() + 25), ctx.rng)
+                exhaustive[name][f"schedules_le{k}_sampled"] = explore(
+                    ctx, real, batch, sc, k, min(t_end + 60, time.time() + 8), ctx.rng)
                 batch.flush()
     ctx.extra["exhaustive"] = False
     ctx.extra["exhaustive_part"] = exhaustive
